@@ -37,5 +37,8 @@ SPEC = {
                    "(relok_iff_good), clock step + strict monotonicity everywhere); full statement for preview. The harness oracle "
                    "keys a violation as a known finding only when it carries the exact signature of the recorded defect (right "
                    "epoch + remainder = slot mod epoch-seconds on a Byron slot >= one epoch; testnet pair straddling the boundary "
-                   "off by exactly 10800 s); anything else (e.g. a Shelley-era off-by-one) is reported as a VIOLATION.",
+                   "off by exactly 10800 s); anything else (e.g. a Shelley-era off-by-one) is reported as a VIOLATION. Self-tests run: Shelley branch "
+                   "`slot - shelley_known_slot + 1` (caught: roundtrip VIOLATION with replay); preprod shelley_known_time + 1 (caught: "
+                   "wf_preprod no longer decides and clock-step VIOLATION `pair 86399 86400`); u64::from casts / commuted products in "
+                   "compute_absolute_slot_within_era and compute_linear_timestamp (quiet).",
 }
